@@ -6,7 +6,7 @@ EXTENDS Naturals, Sequences, FiniteSets, TLC, Json, Randomization
  A heap has three objects over the mapped model of harness/models/vmodel.py:
     A (and its subclass B):  one: Optional[A]   other: Optional[C]   many: List[C]
     C:                       back: Optional[A]  m: Optional[M]       peers: List[A]
-    M (alternatively mapped through a mapping class):  ref: Optional[A]
+    M (alternatively mapped through a mapping class) and its normally mapped subclass N:  ref: Optional[A]
  (0 = None; lists have up to two entries, repetitions allowed).  `root` is the object that is converted.
  Layer R: the round trip yields an ISOMORPHIC graph - same classes, same references, same list order, same
           sharing (Iso is what the replayer checks on the real objects); for SQL: one row per distinct
@@ -22,10 +22,10 @@ VARIABLES cls, rec, root
 vars == <<cls, rec, root>>
 Obj == 1..3
 ClsChoices == { <<"A", "C", "M">>, <<"A", "B", "C">>, <<"B", "C", "M">>, <<"A", "A", "C">>, <<"A", "C", "C">>, <<"M", "A", "C">>,
-                <<"C", "M", "B">>, <<"M", "C", "M">> }
+                <<"C", "M", "B">>, <<"M", "C", "M">>, <<"A", "C", "N">>, <<"N", "C", "B">>, <<"N", "C", "M">> }
 AO(c) == { o \in Obj : c[o] \in {"A", "B"} }
 CO(c) == { o \in Obj : c[o] = "C" }
-MO(c) == { o \in Obj : c[o] = "M" }
+MO(c) == { o \in Obj : c[o] \in {"M", "N"} }        \* N = a normally mapped subclass of the alternatively mapped M
 Opt(S) == S \cup {0}
 Lists(S) == { <<>> } \cup { <<a>> : a \in S } \cup { <<a, b>> : a \in S, b \in S }
 Empty == [one |-> 0, other |-> 0, many |-> <<>>, back |-> 0, m |-> 0, peers |-> <<>>, ref |-> 0]
@@ -68,7 +68,8 @@ RoundTripIso == Result.ph = {}          \* the only way the result can differ fr
 Rows == [VA |-> Cardinality({ o \in Reachable : cls[o] \in {"A", "B"} }),
          VB |-> Cardinality({ o \in Reachable : cls[o] = "B" }),
          VC |-> Cardinality({ o \in Reachable : cls[o] = "C" }),
-         VM |-> Cardinality({ o \in Reachable : cls[o] = "M" })]
+         VM |-> Cardinality({ o \in Reachable : cls[o] \in {"M", "N"} }),
+         VN |-> Cardinality({ o \in Reachable : cls[o] = "N" })]
 \* the self-referential single reference `one`: two objects of the hierarchy pointing at the same target (finding F09)
 SharedOne == \E a, b \in Reachable : a # b /\ cls[a] \in {"A", "B"} /\ cls[b] \in {"A", "B"} /\ rec[a].one # 0 /\ rec[a].one = rec[b].one
 Emit == PrintT(ToJson([cls |-> cls, rec |-> rec, root |-> root, leaks |-> Result.ph # {}, reach |-> Reachable, rows |-> Rows,
